@@ -832,6 +832,13 @@ def check_C06(chk, R, S):
     run_corpus(chk, [])
     n = max(40, S["sims"] // 5)
     scs = gen_many(R, n, {"p_steps": 0.0, "fails": [0.0, 0.3, 0.5], "p_assert": 0.0})
+    # cancel-heavy scenarios (dead timer events stay queued, sometimes as the last events of the run), half of them under an
+    # iteration limit: whether and when such an event is popped must not depend on how the run is driven
+    for _ in range(max(20, n // 2)):
+        w = gen_watchdog(R)
+        if R.random() < 0.5:
+            w["maxit"] = R.randint(3, 9)
+        scs.append(w)
     base = corr.corr_sims(scs)
     for r in base:
         chk.record("base", _brief(r["sc"]), True, gen_sim.features(r["sc"], r["impl"]))
